@@ -6,11 +6,9 @@ Open Scope Z_scope.
 Ltac Zify.zify_post_hook ::= Z.div_mod_to_equations.
 
 (* ---------- special-value tables ---------- *)
-(* every ES5 rule for pow is honoured by otto's wrapper over math.Pow, except
-   the one cell pow(1, NaN) *)
+(* every ES5 rule for pow is honoured by otto's wrapper over math.Pow *)
 Lemma pow_table_honoured : forall cx cy r,
-  pow_tbl cx cy = Some r ->
-  otto_pow_tbl cx cy = Some r \/ (cx = CFin false KOne /\ cy = CNaN).
+  pow_tbl cx cy = Some r -> otto_pow_tbl cx cy = Some r.
 Proof.
   intros cx cy r H.
   destruct cx as [| [] | [] | [] []]; destruct cy as [| [] | [] | [] []];
@@ -241,27 +239,20 @@ Proof.
   apply Z.div_unique with (r := 2 * S + d - 2 * d * n); nia.
 Qed.
 
-(* whenever the binary64 sum x + 0.5 is exact, Floor(x + 0.5) is the ES5 result *)
-Lemma round_exact_sum : forall S e, e < 0 ->
-  Z.abs (fst (half_sum S e)) < 2 ^ 53 ->
-  round_int_model S e = q_round S (2 ^ (- e)).
+(* otto's floor-and-compare computes the 15.8.2.15 integer for every rational *)
+Lemma q_round_model_eq : forall S d, 0 < d -> q_round_model S d = q_round S d.
 Proof.
-  intros S e He Hex. unfold round_int_model.
-  destruct (half_sum S e) as [N k] eqn:EH. cbn [fst] in Hex.
-  assert (round_to_double N = N) as ->.
-  { unfold round_to_double. destruct (Z.ltb_spec (Z.abs N) (2 ^ 53)); [reflexivity | lia]. }
-  unfold half_sum in EH. unfold q_round.
-  destruct (Z.leb_spec (-1) e).
-  { assert (e = -1) by lia. subst e. injection EH as EN Ek. subst N k.
-    change (2 ^ (-1 + 1)) with 1. change (2 ^ (- -1)) with 2.
-    replace (2 * S + 2) with ((S * 1 + 1) * 2) by lia. change (2 * 2) with 4.
-    replace 4 with (2 * 2) by reflexivity.
-    rewrite Z.div_mul_cancel_r by lia. reflexivity. }
-  injection EH as EN Ek. subst N k.
-  replace (2 ^ (- e)) with (2 * 2 ^ (-1 - e)).
-  2:{ replace (- e) with (1 + (-1 - e)) by lia. rewrite Z.pow_add_r by lia. reflexivity. }
-  assert (0 < 2 ^ (-1 - e)) by (apply Z.pow_pos_nonneg; lia).
-  replace (2 * S + 2 * 2 ^ (-1 - e)) with ((S + 2 ^ (-1 - e)) * 2) by lia.
-  replace (2 * (2 * 2 ^ (-1 - e))) with ((2 * 2 ^ (-1 - e)) * 2) by lia.
-  rewrite Z.div_mul_cancel_r by lia. reflexivity.
+  intros S d Hd. unfold q_round_model.
+  pose proof (Z.div_mod S d ltac:(lia)) as E.
+  pose proof (Z.mod_pos_bound S d Hd) as B.
+  set (f := S / d) in *.
+  destruct (Z.leb_spec d (2 * (S - f * d))); apply q_round_unique; nia.
+Qed.
+
+Lemma round_model_is_spec : forall b, round_model b = round_spec b.
+Proof.
+  intro b. unfold round_model, round_spec, exact_unary.
+  destruct (decode b) as [| neg | neg m e]; try reflexivity.
+  destruct (Z.leb_spec 0 e); [reflexivity |].
+  rewrite q_round_model_eq by (apply Z.pow_pos_nonneg; lia). reflexivity.
 Qed.
